@@ -317,8 +317,11 @@ func genGraph(t *rapid.T, mode string, cfg GenCfg) *Spec {
 			var cands []string
 			for j := range sp.Nodes {
 				c := &sp.Nodes[j]
-				if c.Key == ts[0] || c.Key == from || c.EffIn() != sp.OutType(from) {
+				if c.Key == ts[0] || c.EffIn() != sp.OutType(from) {
 					continue
+				}
+				if c.Key == from && !(mode == "pregel" && cfg.Cycles) {
+					continue // a self loop is a cycle
 				}
 				if j <= fi && !(mode == "pregel" && cfg.Cycles) {
 					continue
@@ -372,7 +375,10 @@ func genGraph(t *rapid.T, mode string, cfg GenCfg) *Spec {
 		if b < n {
 			to = sp.Nodes[b].Key
 		}
-		if from == to || g.hasEdge(from, to) || sp.OutType(from) != sp.InType(to) {
+		if g.hasEdge(from, to) || sp.OutType(from) != sp.InType(to) {
+			continue
+		}
+		if from == to && !(mode == "pregel" && cfg.Cycles) {
 			continue
 		}
 		back := b <= a
@@ -463,6 +469,10 @@ func genGraph(t *rapid.T, mode string, cfg GenCfg) *Spec {
 	}
 	if mode == "pregel" && pct(t, 30, "maxSteps") {
 		sp.MaxSteps = rapid.IntRange(1, n+4).Draw(t, "maxStepsV")
+	}
+	if pct(t, 8, "orphan") {
+		// a node nothing routes to: it must never run
+		sp.Nodes = append(sp.Nodes, NodeSpec{Key: fmt.Sprintf("n%d", n), Kind: "lambda", In: pick(t, []string{"S", "M"}, "orphanIn"), Digest: true})
 	}
 	return sp
 }
@@ -728,6 +738,9 @@ func genWorkflow(t *rapid.T, cfg GenCfg) *Spec {
 		}
 	}
 	_ = hasEnd
+	if pct(t, 8, "orphan") {
+		sp.Nodes = append(sp.Nodes, NodeSpec{Key: fmt.Sprintf("n%d", n), Kind: "lambda", In: pick(t, []string{"S", "M"}, "orphanIn"), Digest: true})
+	}
 	return dedupeWorkflow(sp)
 }
 
